@@ -51,10 +51,12 @@ template <int S> struct Runner {
     // route 5: update() on a long-lived object that holds the previous problem and whose trajectory has been evaluated
     {
       if (reused.isInitialized()) for (int k = 0; k < M; ++k) (void)reused.getTrajectory().evaluate(reused.getStartTime(), k);
+      // first the same problem at another start time (same N: nothing is resized), evaluated, then the real one
+      { reused.update(q.T, q.P, q.t0 + 3.25, q.bc); (void)reused.getTrajectory().evaluate(reused.getStartTime(), 1); }
       if (toggle) reused.update(q.T, q.P, q.t0, q.bc); else reused.update(tp, q.P, q.bc);
       toggle = !toggle;
       ++c.st.comparisons;
-      bool ok = mat_bits_equal(reused.getTrajectory().getCoefficients(), A.getTrajectory().getCoefficients()) && reused.getTrajectory().getBreakpoints() == A.getTrajectory().getBreakpoints();
+      bool ok = mat_bits_equal(reused.getTrajectory().getCoefficients(), A.getTrajectory().getCoefficients()) && reused.getTrajectory().getBreakpoints() == A.getTrajectory().getBreakpoints() && reused.getCumulativeTimes() == A.getCumulativeTimes() && reused.getStartTime() == A.getStartTime() && reused.getEndTime() == A.getEndTime() && reused.getDuration() == A.getDuration();
       const std::vector<double> &cm = A.getCumulativeTimes();
       for (int i = 0; ok && i <= N; ++i) for (int k = 0; k < S; ++k) { auto a = A.getTrajectory().evaluate(cm[i], k), b = reused.getTrajectory().evaluate(cm[i], k); ok = ok && bits_equal(a.data(), b.data(), D); }
       if (!ok) fail("route-reused-object", p, "update() on an object that held another problem (and was evaluated) differs from a fresh construction");
